@@ -526,6 +526,20 @@ func fnHeapGenerate(f *ast.File, specs []string) (text string, lostMsgs []string
 	return b.String(), lostMsgs
 }
 
+// coreSliceOf: the slice type S of a type parameter constrained by the single term ~S (`Slice ~[]T`)
+func coreSliceOf(tp *types.TypeParam) *types.Slice {
+	iface, ok := tp.Constraint().Underlying().(*types.Interface)
+	if !ok || iface.NumEmbeddeds() != 1 || iface.NumExplicitMethods() != 0 {
+		return nil
+	}
+	u, ok := iface.EmbeddedType(0).(*types.Union)
+	if !ok || u.Len() != 1 {
+		return nil
+	}
+	sl, _ := u.Term(0).Type().Underlying().(*types.Slice)
+	return sl
+}
+
 func namedOf(t types.Type) *types.Named {
 	if t == nil {
 		return nil
@@ -677,6 +691,9 @@ func (g *hgen) typeOf(t types.Type, at ast.Node) *hty {
 			return &hty{k: "nil"}
 		}
 	case *types.TypeParam:
+		if sl := coreSliceOf(v); sl != nil {
+			return g.typeOf(sl, at) // Slice ~[]T: a slice of T
+		}
 		return &hty{k: "elem", name: v.Obj().Name()}
 	case *types.Pointer:
 		n := namedOf(v.Elem())
@@ -1149,6 +1166,9 @@ func (c *hctx) function() {
 	}
 	if tp := sig.TypeParams(); tp != nil {
 		for i := 0; i < tp.Len(); i++ {
+			if coreSliceOf(tp.At(i)) != nil {
+				continue // Slice ~[]T is not an element type of its own
+			}
 			fn.tparams = append(fn.tparams, tp.At(i).Obj().Name())
 		}
 	}
